@@ -6467,12 +6467,14 @@ impl Nudge {
         let exact = (truncated.get() as f64)
             + (numer / denom) * (sign.get() as f64) * (increment.get() as f64);
         let rounded = mode.round_float(exact, increment);
-        // N.B. `f64::signum` returns `1.0` for `0.0`. When the span is
-        // already an exact multiple of the increment, rounding doesn't change
-        // anything and the span must not be treated as having grown.
-        let diff = (rounded.get() as f64) - exact;
-        let grew_big_unit =
-            diff != 0.0 && diff.signum() == (sign.get() as f64);
+        // The span grew precisely when rounding moved it off of the truncated
+        // value and to the far end of the window (this is what Temporal's
+        // `NudgeToCalendarUnit` does). Comparing `rounded` with `exact`
+        // instead gets this wrong when `exact` lands on either end of the
+        // window: on the near end nothing grew, and on the far end (possible
+        // when the remainder amounts to a whole unit, e.g., `11mo 30d`
+        // relative to `2024-02-29`) the span did grow.
+        let grew_big_unit = rounded != truncated;
 
         let span = span
             .try_units_ranged(smallest, rounded.rinto())
